@@ -250,6 +250,8 @@ theorem visit_clean {c : DrawCfg} (hrw : RwOk c.rw) {d : Option Style} {s : Scr}
       exact getContent_setDirty hrw s.cells (x + 1) y true inv.wok i j
     · intro i j; simp only [hcells]; split <;> simp
     · intro i j hne; simp only [hcells]
+      have hw2 : (s.cells.getContent x y).2.2.2 = 2 := by omega
+      simp only [hw2] at hne
       have : ¬ (i = x + 1 ∧ j = y) := by omega
       rw [if_neg this]
     · intro hl
@@ -703,5 +705,546 @@ theorem visit_dirty {c : DrawCfg} (hrw : RwOk c.rw) (hct : c.cornerTrick = false
       rw [if_neg n1]
     · intro _; simp only [hc1, and_self, if_true]
       exact ⟨Cell.markClean_lastMain_ne _, by simp⟩
+
+end Tcell
+
+namespace Tcell
+open Buf
+
+/-- one loop iteration preserves the pass invariant, whatever the cell's state -/
+theorem visit_post {c : DrawCfg} (hrw : RwOk c.rw) (hct : c.cornerTrick = false) {d : Option Style} {s : Scr} {t : ATerm}
+    {x y : Int} (inv : PassInv c d s t x y) (hr : s.cells.inRange x y) :
+    VisitPost c d s t x y (s.visit c x y).1 (t.applyAll (s.visit c x y).2.1) (s.visit c x y).2.2 := by
+  cases hd : s.cells.dirty x y
+  · exact visit_clean hrw inv hr hd
+  · exact visit_dirty hrw hct inv hr hd
+
+theorem drawRow_succ (c : DrawCfg) (y : Int) (fuel : Nat) (x : Int) (s : Scr) :
+    Scr.drawRow c y (fuel + 1) x s =
+      if x < s.w then
+        ((Scr.drawRow c y fuel (x + (s.visit c x y).2.2) (s.visit c x y).1).1,
+         (s.visit c x y).2.1 ++ (Scr.drawRow c y fuel (x + (s.visit c x y).2.2) (s.visit c x y).1).2)
+      else (s, []) := by
+  simp only [Scr.drawRow, Scr.visit]
+
+theorem applyAll_append (t : ATerm) (l1 l2 : List Cmd) : t.applyAll (l1 ++ l2) = (t.applyAll l1).applyAll l2 := by
+  simp [ATerm.applyAll, List.foldl_append]
+
+@[simp] theorem applyAll_nil (t : ATerm) : t.applyAll [] = t := rfl
+
+theorem visits_ge (rw : Rune → Int) (b : Buf) (y : Int) (fuel : Nat) (x0 i : Int) (h : b.w ≤ x0) :
+    visits rw b y fuel x0 i = false := by
+  cases fuel with
+  | zero => rfl
+  | succ n => simp only [visits]; rw [if_neg (by omega)]
+
+/-- what a pass over (the rest of) a row guarantees -/
+structure RowPost (c : DrawCfg) (d : Option Style) (s : Scr) (t : ATerm) (x0 y : Int) (fuel : Nat)
+    (s' : Scr) (t' : ATerm) : Prop where
+  sync : SyncInv c d s' t'
+  kcur : s'.cells.inRange s'.cx s'.cy → t'.cur = some (s'.cx, s'.cy)
+  kpen : s'.curstyle ≠ styleInvalid → t'.pen = some s'.curstyle
+  gc_same : ∀ i j, s'.cells.getContent i j = s.cells.getContent i j
+  lock_same : ∀ i j, (s'.cells.cells i j).lock = (s.cells.cells i j).lock
+  other_same : ∀ i j, (j ≠ y ∨ i < x0) → s'.cells.cells i j = s.cells.cells i j
+  done : ∀ i, visits c.rw s.cells y fuel x0 i = true → (s.cells.cells i y).lock = false →
+    (s'.cells.cells i y).lastMain ≠ 0 ∧ (s'.cells.cells i y).last = (s'.cells.cells i y).content
+  w_same : s'.w = s.w
+  h_same : s'.h = s.h
+  style_same : s'.style = s.style
+  cursor_same : s'.cursorx = s.cursorx ∧ s'.cursory = s.cursory ∧ s'.cursorStyle = s.cursorStyle ∧ s'.cursorColor = s.cursorColor
+  flags_same : s'.clear = s.clear ∧ s'.fini = s.fini
+  vis_same : t'.visible = t.visible ∧ t'.shape = t.shape
+  /-- cells that received payload in this pass were dirty when the pass reached them, and lie in this row right of x0 -/
+  writes : ∃ ws, t'.writes = ws ++ t.writes ∧ ∀ p ∈ ws, p.2 = y ∧ x0 ≤ p.1 ∧ s.cells.dirty p.1 p.2 = true
+
+theorem visits_self (rw : Rune → Int) (b : Buf) (y : Int) (fuel : Nat) (x0 : Int) (h : x0 < b.w) :
+    visits rw b y (fuel + 1) x0 x0 = true := by
+  simp [visits, h]
+
+theorem visits_lt (rw : Rune → Int) (b : Buf) (y : Int) (hw : ∀ i j, 1 ≤ (b.getContent i j).2.2.2 ∨ ¬ b.inRange i j) :
+    ∀ (fuel : Nat) (x0 i : Int), 0 ≤ x0 → 0 ≤ y → y < b.h → visits rw b y fuel x0 i = true → x0 ≤ i := by
+  intro fuel
+  induction fuel with
+  | zero => intro x0 i _ _ _ h; simp [visits] at h
+  | succ n ih =>
+    intro x0 i h0 hy0 hy1 h
+    simp only [visits] at h
+    split at h
+    · rename_i hlt
+      split at h
+      · omega
+      · have hr : b.inRange x0 y := by simp only [inRange_iff]; omega
+        have := ih (x0 + (b.getContent x0 y).2.2.2) i (by rcases hw x0 y with h' | h'; omega; exact absurd hr h') hy0 hy1 h
+        rcases hw x0 y with h' | h'
+        · omega
+        · exact absurd hr h'
+    · simp at h
+
+theorem drawRow_post {c : DrawCfg} (hrw : RwOk c.rw) (hct : c.cornerTrick = false) {d : Option Style} (y : Int) :
+    ∀ (fuel : Nat) (x : Int) (s : Scr) (t : ATerm), 0 ≤ x → 0 ≤ y → y < s.h → PassInv c d s t x y →
+      RowPost c d s t x y fuel (Scr.drawRow c y fuel x s).1 (t.applyAll (Scr.drawRow c y fuel x s).2) := by
+  intro fuel
+  induction fuel with
+  | zero =>
+    intro x s t _ _ _ inv
+    exact { sync := inv.toSyncInv, kcur := inv.kcur, kpen := inv.kpen, gc_same := fun _ _ => rfl, lock_same := fun _ _ => rfl,
+            other_same := fun _ _ _ => rfl, done := by intro i h; simp [visits] at h, w_same := rfl, h_same := rfl,
+            style_same := rfl, cursor_same := ⟨rfl, rfl, rfl, rfl⟩, flags_same := ⟨rfl, rfl⟩, vis_same := ⟨rfl, rfl⟩,
+            writes := ⟨[], by simp [Scr.drawRow], by simp⟩ }
+  | succ n ih =>
+    intro x s t hx0 hy0 hy1 inv
+    rw [drawRow_succ]
+    by_cases hlt : x < s.w
+    · rw [if_pos hlt]; simp only
+      have hr : s.cells.inRange x y := by
+        have := inv.cw; have := inv.ch; simp only [inRange_iff]; omega
+      have vp := visit_post hrw hct inv hr
+      rw [applyAll_append]
+      have hy1' : y < (s.visit c x y).1.h := by rw [vp.h_same]; exact hy1
+      have rp := ih (x + (s.visit c x y).2.2) (s.visit c x y).1 (t.applyAll (s.visit c x y).2.1)
+        (by have := vp.wd_pos; omega) hy0 hy1' vp.inv
+      have hwd := vp.wd_pos
+      refine { sync := rp.sync, kcur := rp.kcur, kpen := rp.kpen, gc_same := ?_, lock_same := ?_, other_same := ?_,
+               done := ?_, w_same := by rw [rp.w_same, vp.w_same], h_same := by rw [rp.h_same, vp.h_same],
+               style_same := by rw [rp.style_same, vp.style_same], cursor_same := ?_, flags_same := ?_, vis_same := ?_,
+               writes := ?_ }
+      · intro i j; rw [rp.gc_same, vp.gc_same]
+      · intro i j; rw [rp.lock_same, vp.lock_same]
+      · intro i j hne
+        rw [rp.other_same i j (by omega), vp.other_same i j (by omega)]
+      · intro i hv hl
+        simp only [visits, if_pos (show x < s.cells.w by rw [inv.cw]; exact hlt)] at hv
+        by_cases hix : i = x
+        · subst hix
+          have hdone := vp.done hl
+          rw [rp.other_same i y (Or.inr (by omega))]
+          exact hdone
+        · rw [if_neg hix] at hv
+          -- the model's step and the spec's step reach the same columns
+          have hv' : visits c.rw (s.visit c x y).1.cells y n (x + (s.visit c x y).2.2) i = true := by
+            have hsame : ∀ (f : Nat) (a b : Int), visits c.rw (s.visit c x y).1.cells y f a b = visits c.rw s.cells y f a b := by
+              intro f
+              induction f with
+              | zero => intro a b; rfl
+              | succ m ihm =>
+                intro a b
+                simp only [visits, vp.gc_same, ihm]
+                have : (s.visit c x y).1.cells.w = s.cells.w := by rw [vp.inv.cw, vp.w_same, inv.cw]
+                rw [this]
+            rw [hsame]
+            rcases vp.wd_eq with e | e
+            · rw [e]; exact hv
+            · exfalso
+              rw [visits_ge _ _ _ _ _ _ (by rw [inv.cw]; omega)] at hv; simp at hv
+          have hl' : ((s.visit c x y).1.cells.cells i y).lock = false := by rw [vp.lock_same]; exact hl
+          exact rp.done i hv' hl'
+      · obtain ⟨a1, a2, a3, a4⟩ := rp.cursor_same; obtain ⟨b1, b2, b3, b4⟩ := vp.cursor_same
+        exact ⟨a1.trans b1, a2.trans b2, a3.trans b3, a4.trans b4⟩
+      · obtain ⟨a1, a2⟩ := rp.flags_same; obtain ⟨b1, b2⟩ := vp.flags_same
+        exact ⟨a1.trans b1, a2.trans b2⟩
+      · obtain ⟨a1, a2⟩ := rp.vis_same; obtain ⟨b1, b2⟩ := vp.vis_same
+        exact ⟨a1.trans b1, a2.trans b2⟩
+      · obtain ⟨ws, hws, hmem⟩ := rp.writes
+        rw [vp.writes] at hws
+        -- a cell right of the visit position is untouched by the visit, so "dirty" means the same before and after
+        have hkeep : ∀ p : Int × Int, p.2 = y → x + (s.visit c x y).2.2 ≤ p.1 →
+            (s.visit c x y).1.cells.dirty p.1 p.2 = true → s.cells.dirty p.1 p.2 = true := by
+          intro p p1 p2 p3
+          have hcw : (s.visit c x y).1.cells.w = s.cells.w := by rw [vp.inv.cw, vp.w_same, inv.cw]
+          have hch : (s.visit c x y).1.cells.h = s.cells.h := by rw [vp.inv.ch, vp.h_same, inv.ch]
+          have hsame := vp.other_same p.1 p.2 (Or.inr (Or.inr p2))
+          simp only [dirty, inRange_iff, hcw, hch, hsame] at p3 ⊢
+          exact p3
+        by_cases hd : s.cells.dirty x y = true
+        · rw [if_pos hd] at hws
+          refine ⟨ws ++ [(x, y)], by rw [hws]; simp, ?_⟩
+          intro p hp
+          rcases List.mem_append.1 hp with hp | hp
+          · obtain ⟨p1, p2, p3⟩ := hmem p hp
+            exact ⟨p1, by omega, hkeep p p1 p2 p3⟩
+          · simp only [List.mem_singleton] at hp; subst hp
+            exact ⟨rfl, by simp, hd⟩
+        · have hd' : s.cells.dirty x y = false := by cases h : s.cells.dirty x y <;> simp_all
+          rw [hd'] at hws; simp only [Bool.false_eq_true, if_false] at hws
+          refine ⟨ws, hws, ?_⟩
+          intro p hp
+          obtain ⟨p1, p2, p3⟩ := hmem p hp
+          exact ⟨p1, by omega, hkeep p p1 p2 p3⟩
+    · rw [if_neg hlt]
+      exact { sync := inv.toSyncInv, kcur := inv.kcur, kpen := inv.kpen, gc_same := fun _ _ => rfl, lock_same := fun _ _ => rfl,
+              other_same := fun _ _ _ => rfl,
+              done := by intro i h; rw [visits_ge _ _ _ _ _ _ (by rw [inv.cw]; omega)] at h; simp at h,
+              w_same := rfl, h_same := rfl, style_same := rfl, cursor_same := ⟨rfl, rfl, rfl, rfl⟩, flags_same := ⟨rfl, rfl⟩,
+              vis_same := ⟨rfl, rfl⟩, writes := ⟨[], by simp, by simp⟩ }
+
+end Tcell
+
+namespace Tcell
+open Buf
+
+theorem visits_congr (rw : Rune → Int) (b b' : Buf) (y : Int) (hw : b'.w = b.w)
+    (hg : ∀ i j, b'.getContent i j = b.getContent i j) :
+    ∀ (f : Nat) (a i : Int), visits rw b' y f a i = visits rw b y f a i := by
+  intro f
+  induction f with
+  | zero => intro a i; rfl
+  | succ m ih => intro a i; simp only [visits, hg, ih, hw]
+
+/-- what the double loop of draw guarantees from row y0 on -/
+structure RowsPost (c : DrawCfg) (d : Option Style) (s : Scr) (t : ATerm) (y0 : Int) (fuel : Nat)
+    (s' : Scr) (t' : ATerm) : Prop where
+  sync : SyncInv c d s' t'
+  kcur : s'.cells.inRange s'.cx s'.cy → t'.cur = some (s'.cx, s'.cy)
+  kpen : s'.curstyle ≠ styleInvalid → t'.pen = some s'.curstyle
+  gc_same : ∀ i j, s'.cells.getContent i j = s.cells.getContent i j
+  lock_same : ∀ i j, (s'.cells.cells i j).lock = (s.cells.cells i j).lock
+  other_same : ∀ i j, j < y0 → s'.cells.cells i j = s.cells.cells i j
+  done : ∀ y i, y0 ≤ y → y < y0 + fuel → y < s.h → visits c.rw s.cells y s.w.toNat 0 i = true → (s.cells.cells i y).lock = false →
+    (s'.cells.cells i y).lastMain ≠ 0 ∧ (s'.cells.cells i y).last = (s'.cells.cells i y).content
+  w_same : s'.w = s.w
+  h_same : s'.h = s.h
+  style_same : s'.style = s.style
+  cursor_same : s'.cursorx = s.cursorx ∧ s'.cursory = s.cursory ∧ s'.cursorStyle = s.cursorStyle ∧ s'.cursorColor = s.cursorColor
+  flags_same : s'.clear = s.clear ∧ s'.fini = s.fini
+  vis_same : t'.visible = t.visible ∧ t'.shape = t.shape
+  writes : ∃ ws, t'.writes = ws ++ t.writes ∧ ∀ p ∈ ws, y0 ≤ p.2 ∧ s.cells.dirty p.1 p.2 = true
+
+theorem drawRows_succ (c : DrawCfg) (fuel : Nat) (y : Int) (s : Scr) :
+    Scr.drawRows c (fuel + 1) y s =
+      if y < s.h then
+        ((Scr.drawRows c fuel (y + 1) (Scr.drawRow c y s.w.toNat 0 s).1).1,
+         (Scr.drawRow c y s.w.toNat 0 s).2 ++ (Scr.drawRows c fuel (y + 1) (Scr.drawRow c y s.w.toNat 0 s).1).2)
+      else (s, []) := by
+  simp only [Scr.drawRows]
+
+theorem drawRows_post {c : DrawCfg} (hrw : RwOk c.rw) (hct : c.cornerTrick = false) {d : Option Style} :
+    ∀ (fuel : Nat) (y : Int) (s : Scr) (t : ATerm), 0 ≤ y → SyncInv c d s t →
+      (s.cells.inRange s.cx s.cy → t.cur = some (s.cx, s.cy)) → (s.curstyle ≠ styleInvalid → t.pen = some s.curstyle) →
+      (∀ d', d = some d' → d' = s.style) →
+      RowsPost c d s t y fuel (Scr.drawRows c fuel y s).1 (t.applyAll (Scr.drawRows c fuel y s).2) := by
+  intro fuel
+  induction fuel with
+  | zero =>
+    intro y s t _ inv kc kp _
+    exact { sync := inv, kcur := kc, kpen := kp, gc_same := fun _ _ => rfl, lock_same := fun _ _ => rfl,
+            other_same := fun _ _ _ => rfl, done := by intro y' i h1 h2; omega, w_same := rfl, h_same := rfl,
+            style_same := rfl, cursor_same := ⟨rfl, rfl, rfl, rfl⟩, flags_same := ⟨rfl, rfl⟩, vis_same := ⟨rfl, rfl⟩,
+            writes := ⟨[], by simp [Scr.drawRows], by simp⟩ }
+  | succ n ih =>
+    intro y s t hy0 inv kc kp dc
+    rw [drawRows_succ]
+    by_cases hlt : y < s.h
+    · rw [if_pos hlt]; simp only
+      have pinv : PassInv c d s t 0 y :=
+        { toSyncInv := inv, kcur := kc, kpen := kp, q := by intro h; omega, dcompat := dc }
+      have rp := drawRow_post hrw hct y s.w.toNat 0 s t (by omega) hy0 hlt pinv
+      rw [applyAll_append]
+      have rs := ih (y + 1) (Scr.drawRow c y s.w.toNat 0 s).1 (t.applyAll (Scr.drawRow c y s.w.toNat 0 s).2) (by omega)
+        rp.sync rp.kcur rp.kpen (by intro d' hd'; rw [rp.style_same]; exact dc d' hd')
+      have hcw : (Scr.drawRow c y s.w.toNat 0 s).1.cells.w = s.cells.w := by rw [rp.sync.cw, rp.w_same, inv.cw]
+      have hch : (Scr.drawRow c y s.w.toNat 0 s).1.cells.h = s.cells.h := by rw [rp.sync.ch, rp.h_same, inv.ch]
+      refine { sync := rs.sync, kcur := rs.kcur, kpen := rs.kpen, gc_same := ?_, lock_same := ?_, other_same := ?_,
+               done := ?_, w_same := by rw [rs.w_same, rp.w_same], h_same := by rw [rs.h_same, rp.h_same],
+               style_same := by rw [rs.style_same, rp.style_same], cursor_same := ?_, flags_same := ?_, vis_same := ?_,
+               writes := ?_ }
+      · intro i j; rw [rs.gc_same, rp.gc_same]
+      · intro i j; rw [rs.lock_same, rp.lock_same]
+      · intro i j hj; rw [rs.other_same i j (by omega), rp.other_same i j (Or.inl (by omega))]
+      · intro y' i h1 h2 h3 hv hl
+        by_cases hy : y' = y
+        · subst hy
+          rw [rs.other_same i y' (by omega)]
+          exact rp.done i hv hl
+        · have hv' : visits c.rw (Scr.drawRow c y s.w.toNat 0 s).1.cells y' (Scr.drawRow c y s.w.toNat 0 s).1.w.toNat 0 i = true := by
+            rw [visits_congr c.rw s.cells _ y' hcw rp.gc_same, rp.w_same]; exact hv
+          have hl' : ((Scr.drawRow c y s.w.toNat 0 s).1.cells.cells i y').lock = false := by rw [rp.lock_same]; exact hl
+          exact rs.done y' i (by omega) (by omega) (by rw [rp.h_same]; exact h3) hv' hl'
+      · obtain ⟨a1, a2, a3, a4⟩ := rs.cursor_same; obtain ⟨b1, b2, b3, b4⟩ := rp.cursor_same
+        exact ⟨a1.trans b1, a2.trans b2, a3.trans b3, a4.trans b4⟩
+      · obtain ⟨a1, a2⟩ := rs.flags_same; obtain ⟨b1, b2⟩ := rp.flags_same
+        exact ⟨a1.trans b1, a2.trans b2⟩
+      · obtain ⟨a1, a2⟩ := rs.vis_same; obtain ⟨b1, b2⟩ := rp.vis_same
+        exact ⟨a1.trans b1, a2.trans b2⟩
+      · obtain ⟨ws1, hws1, hm1⟩ := rp.writes
+        obtain ⟨ws2, hws2, hm2⟩ := rs.writes
+        refine ⟨ws2 ++ ws1, by rw [hws2, hws1]; simp, ?_⟩
+        intro p hp
+        rcases List.mem_append.1 hp with hp | hp
+        · obtain ⟨p1, p2⟩ := hm2 p hp
+          refine ⟨by omega, ?_⟩
+          have hsame := rp.other_same p.1 p.2 (Or.inl (by omega))
+          simp only [dirty, inRange_iff, hcw, hch, hsame] at p2 ⊢
+          exact p2
+        · obtain ⟨p1, _, p3⟩ := hm1 p hp
+          exact ⟨by omega, p3⟩
+    · rw [if_neg hlt]
+      exact { sync := inv, kcur := kc, kpen := kp, gc_same := fun _ _ => rfl, lock_same := fun _ _ => rfl,
+              other_same := fun _ _ _ => rfl,
+              done := by intro y' i h1 _ h3; omega,
+              w_same := rfl, h_same := rfl, style_same := rfl, cursor_same := ⟨rfl, rfl, rfl, rfl⟩, flags_same := ⟨rfl, rfl⟩,
+              vis_same := ⟨rfl, rfl⟩, writes := ⟨[], by simp, by simp⟩ }
+
+end Tcell
+
+namespace Tcell
+open Buf
+
+/-- every cell of the buffer needs repainting -/
+def AllDirty (s : Scr) : Prop := ∀ x y, s.cells.inRange x y → (s.cells.cells x y).lastMain = 0
+
+/-- weakening the recorded default style is always sound -/
+theorem SyncInv.weaken {c : DrawCfg} {d : Option Style} {s : Scr} {t : ATerm} (inv : SyncInv c d s t) :
+    SyncInv c none s t :=
+  { tw := inv.tw, th := inv.th, cw := inv.cw, ch := inv.ch, wok := inv.wok, valid := inv.valid, g2 := inv.g2, wf := inv.wf,
+    g3 := inv.g3, nochaos := inv.nochaos,
+    g1 := fun x y hr hl hm => by
+      obtain ⟨st', h1, h2, _⟩ := inv.g1 x y hr hl hm
+      exact ⟨st', h1, h2, by intro _ d' hd'; exact absurd hd' (by simp)⟩ }
+
+/-- when everything is dirty the invariant does not depend on the recorded default style -/
+theorem SyncInv.of_allDirty {c : DrawCfg} {d d' : Option Style} {s : Scr} {t : ATerm} (inv : SyncInv c d s t)
+    (hall : AllDirty s) : SyncInv c d' s t :=
+  { tw := inv.tw, th := inv.th, cw := inv.cw, ch := inv.ch, wok := inv.wok, valid := inv.valid, g2 := inv.g2, wf := inv.wf,
+    g3 := inv.g3, nochaos := inv.nochaos,
+    g1 := fun x y hr _ hm => absurd (hall x y hr) hm }
+
+/-- the invariant for a terminal about which nothing is known, when everything is dirty -/
+theorem SyncInv.fresh {c : DrawCfg} {d : Option Style} {s : Scr} {t : ATerm}
+    (tw : t.w = s.w) (th : t.h = s.h) (cw : s.cells.w = s.w) (ch : s.cells.h = s.h)
+    (wok : ∀ x y, WOk c.rw (s.cells.cells x y))
+    (valid : s.style.attrs ≠ attrInvalid ∧ ∀ x y, (s.cells.cells x y).currStyle.attrs ≠ attrInvalid)
+    (hall : AllDirty s) (hg : ∀ x y, t.grid x y = .garbage) (hch : t.chaos = false) : SyncInv c d s t :=
+  { tw := tw, th := th, cw := cw, ch := ch, wok := wok, valid := valid,
+    g1 := by intro x y hr _ hm; exact absurd (hall x y hr) hm,
+    g2 := by intro x y hr _; exact Or.inr (hall x y hr),
+    wf := by intro x y _ h; rw [hg] at h; exact absurd h (by simp),
+    g3 := by intro x y hr _ hm; exact absurd (hall x y hr) hm,
+    nochaos := hch }
+
+/-- what a whole draw guarantees -/
+structure DrawPost (c : DrawCfg) (d : Option Style) (s : Scr) (t : ATerm) (s' : Scr) (t' : ATerm) : Prop where
+  sync : SyncInv c d s' t'
+  gc_same : ∀ i j, s'.cells.getContent i j = s.cells.getContent i j
+  lock_same : ∀ i j, (s'.cells.cells i j).lock = (s.cells.cells i j).lock
+  done : ∀ x y, s.cells.inRange x y → visited c.rw s.cells x y = true → (s.cells.cells x y).lock = false →
+    (s'.cells.cells x y).lastMain ≠ 0 ∧ (s'.cells.cells x y).last = (s'.cells.cells x y).content
+  w_same : s'.w = s.w
+  h_same : s'.h = s.h
+  style_same : s'.style = s.style
+  cursor_same : s'.cursorx = s.cursorx ∧ s'.cursory = s.cursory ∧ s'.cursorStyle = s.cursorStyle ∧ s'.cursorColor = s.cursorColor
+  clear_done : s'.clear = false
+  fini_same : s'.fini = s.fini
+  /-- the cursor is shown at the requested cell, or hidden / parked bottom-right when that cell is off-screen -/
+  cursor :
+    (s.cells.inRange s.cursorx s.cursory →
+      t'.cur = some (s.cursorx, s.cursory) ∧ t'.visible = some true ∧ t'.shape = some (s.cursorStyle, s.cursorColor)) ∧
+    (¬ s.cells.inRange s.cursorx s.cursory →
+      (c.hasHide = true → t'.visible = some false) ∧
+      (c.hasHide = false → t'.cur = some (t.clampX s.cells.w, t.clampY s.cells.h)))
+  writes : ∃ ws, t'.writes = ws ++ t.writes ∧ ∀ p ∈ ws, s.cells.dirty p.1 p.2 = true
+
+theorem hideCursor_apply (c : DrawCfg) (s : Scr) (t : ATerm) :
+    (t.applyAll (s.hideCursor c).2).grid = t.grid ∧ (t.applyAll (s.hideCursor c).2).w = t.w ∧
+    (t.applyAll (s.hideCursor c).2).h = t.h ∧ (t.applyAll (s.hideCursor c).2).chaos = t.chaos ∧
+    (t.applyAll (s.hideCursor c).2).writes = t.writes ∧ (t.applyAll (s.hideCursor c).2).pen = t.pen ∧
+    (s.hideCursor c).1.cells = s.cells ∧ (s.hideCursor c).1.w = s.w ∧ (s.hideCursor c).1.h = s.h ∧
+    (s.hideCursor c).1.style = s.style ∧ (s.hideCursor c).1.curstyle = s.curstyle ∧ (s.hideCursor c).1.clear = s.clear ∧
+    (s.hideCursor c).1.fini = s.fini ∧
+    ((s.hideCursor c).1.cursorx = s.cursorx ∧ (s.hideCursor c).1.cursory = s.cursory ∧
+      (s.hideCursor c).1.cursorStyle = s.cursorStyle ∧ (s.hideCursor c).1.cursorColor = s.cursorColor) ∧
+    ((c.hasHide = true → (t.applyAll (s.hideCursor c).2).visible = some false ∧ (s.hideCursor c).1.cx = s.cx ∧
+        (s.hideCursor c).1.cy = s.cy ∧ (t.applyAll (s.hideCursor c).2).cur = t.cur) ∧
+     (c.hasHide = false → (t.applyAll (s.hideCursor c).2).cur = some (t.clampX s.cells.w, t.clampY s.cells.h) ∧
+        (s.hideCursor c).1.cx = s.cells.w ∧ (s.hideCursor c).1.cy = s.cells.h)) := by
+  unfold Scr.hideCursor
+  cases hh : c.hasHide <;> simp [ATerm.applyAll, ATerm.apply]
+
+end Tcell
+
+namespace Tcell
+open Buf
+
+/-- the invariant only reads these components -/
+theorem SyncInv.congr {c : DrawCfg} {d : Option Style} {s s' : Scr} {t t' : ATerm} (inv : SyncInv c d s t)
+    (h1 : s'.cells = s.cells) (h2 : s'.w = s.w) (h3 : s'.h = s.h) (h4 : s'.style = s.style)
+    (h5 : t'.grid = t.grid) (h6 : t'.w = t.w) (h7 : t'.h = t.h) (h8 : t'.chaos = t.chaos) : SyncInv c d s' t' := by
+  refine { tw := by rw [h6, h2]; exact inv.tw, th := by rw [h7, h3]; exact inv.th, cw := by rw [h1, h2]; exact inv.cw,
+           ch := by rw [h1, h3]; exact inv.ch, wok := by rw [h1]; exact inv.wok, valid := by rw [h1, h4]; exact inv.valid,
+           g1 := ?_, g2 := ?_, wf := ?_, g3 := ?_, nochaos := by rw [h8]; exact inv.nochaos }
+  · rw [h1, h2, h5]; exact inv.g1
+  · rw [h1, h5]; exact inv.g2
+  · rw [h1, h5]; exact inv.wf
+  · rw [h1, h2, h5]; exact inv.g3
+
+theorem showCursor_apply (c : DrawCfg) (s : Scr) (t : ATerm) :
+    (t.applyAll (s.showCursor c).2).grid = t.grid ∧ (t.applyAll (s.showCursor c).2).w = t.w ∧
+    (t.applyAll (s.showCursor c).2).h = t.h ∧ (t.applyAll (s.showCursor c).2).chaos = t.chaos ∧
+    (t.applyAll (s.showCursor c).2).writes = t.writes ∧
+    (s.showCursor c).1.cells = s.cells ∧ (s.showCursor c).1.w = s.w ∧ (s.showCursor c).1.h = s.h ∧
+    (s.showCursor c).1.style = s.style ∧ (s.showCursor c).1.clear = s.clear ∧ (s.showCursor c).1.fini = s.fini ∧
+    ((s.showCursor c).1.cursorx = s.cursorx ∧ (s.showCursor c).1.cursory = s.cursory ∧
+      (s.showCursor c).1.cursorStyle = s.cursorStyle ∧ (s.showCursor c).1.cursorColor = s.cursorColor) := by
+  unfold Scr.showCursor
+  simp only
+  split
+  · have := hideCursor_apply c s t
+    obtain ⟨a1, a2, a3, a4, a5, _, a7, a8, a9, a10, _, a12, a13, a14, _⟩ := this
+    exact ⟨a1, a2, a3, a4, a5, a7, a8, a9, a10, a12, a13, a14⟩
+  · simp [ATerm.applyAll, ATerm.apply]
+
+end Tcell
+
+namespace Tcell
+open Buf
+
+theorem draw_eq (c : DrawCfg) (s : Scr) :
+    s.draw c =
+      let s0 : Scr := { s with cx := -1, cy := -1, curstyle := styleInvalid }
+      let r1 := s0.hideCursor c
+      let r2 := if r1.1.clear then r1.1.clearScreen else (r1.1, [])
+      let r3 := Scr.drawRows c r2.1.h.toNat 0 r2.1
+      let r4 := r3.1.showCursor c
+      (r4.1, r1.2 ++ r2.2 ++ r3.2 ++ r4.2) := by
+  simp only [Scr.draw]
+
+theorem draw_post {c : DrawCfg} (hrw : RwOk c.rw) (hct : c.cornerTrick = false) {d : Option Style} {s : Scr} {t : ATerm}
+    (inv : SyncInv c d s t) (hclear : s.clear = true → AllDirty s) :
+    DrawPost c (if d = some s.style then d else none) s t (s.draw c).1 (t.applyAll (s.draw c).2) := by
+  rw [draw_eq]; simp only
+  generalize hd1 : (if d = some s.style then d else none) = d1
+  have inv1 : SyncInv c d1 s t := by
+    rw [← hd1]; split
+    · exact inv
+    · exact inv.weaken
+  have dc1 : ∀ d', d1 = some d' → d' = s.style := by
+    intro d' h; rw [← hd1] at h; split at h
+    · rename_i he; rw [he] at h; injection h with h; exact h.symm
+    · exact absurd h (by simp)
+  -- step 0/1: forget caches, hide the cursor
+  generalize hs0 : ({ s with cx := -1, cy := -1, curstyle := styleInvalid } : Scr) = s0
+  have e0 : s0.cells = s.cells ∧ s0.w = s.w ∧ s0.h = s.h ∧ s0.style = s.style ∧ s0.clear = s.clear ∧ s0.fini = s.fini ∧
+      s0.cx = -1 ∧ s0.cy = -1 ∧ s0.curstyle = styleInvalid ∧ s0.cursorx = s.cursorx ∧ s0.cursory = s.cursory ∧
+      s0.cursorStyle = s.cursorStyle ∧ s0.cursorColor = s.cursorColor := by
+    rw [← hs0]; exact ⟨rfl, rfl, rfl, rfl, rfl, rfl, rfl, rfl, rfl, rfl, rfl, rfl, rfl⟩
+  obtain ⟨e01, e02, e03, e04, e05, e06, e07, e08, e09, e010, e011, e012, e013⟩ := e0
+  have hh := hideCursor_apply c s0 t
+  generalize hr1 : s0.hideCursor c = r1 at hh
+  obtain ⟨g1, g2, g3, g4, g5, g6, g7, g8, g9, g10, g11, g12, g13, g14, g15⟩ := hh
+  generalize ht1 : t.applyAll r1.2 = t1 at *
+  have inv2 : SyncInv c d1 r1.1 t1 :=
+    inv1.congr (g7.trans e01) (g8.trans e02) (g9.trans e03) (g10.trans e04) g1 g2 g3 g4
+  have hcs1 : r1.1.curstyle = styleInvalid := g11.trans e09
+  have hkc1 : r1.1.cells.inRange r1.1.cx r1.1.cy → t1.cur = some (r1.1.cx, r1.1.cy) := by
+    intro hr
+    cases hh : c.hasHide
+    · obtain ⟨_, k2, k3⟩ := g15.2 hh
+      rw [k2, k3, g7] at hr; simp only [inRange_iff] at hr; omega
+    · obtain ⟨_, k2, k3, _⟩ := g15.1 hh
+      rw [k2, k3, e07, e08, g7] at hr; simp only [inRange_iff] at hr; omega
+  -- step 2: optional clear
+  have hall1 : r1.1.clear = true → AllDirty r1.1 := by
+    intro h; rw [g12, e05] at h
+    intro x y hr; rw [g7, e01] at hr ⊢; exact hclear h x y hr
+  generalize hr2 : (if r1.1.clear then r1.1.clearScreen else (r1.1, [])) = r2
+  generalize ht2 : t1.applyAll r2.2 = t2
+  have st2 : SyncInv c d1 r2.1 t2 ∧ r2.1.cells = r1.1.cells ∧ r2.1.w = r1.1.w ∧ r2.1.h = r1.1.h ∧ r2.1.style = r1.1.style ∧
+      r2.1.curstyle = r1.1.curstyle ∧ r2.1.clear = false ∧ r2.1.fini = r1.1.fini ∧ r2.1.cx = r1.1.cx ∧ r2.1.cy = r1.1.cy ∧
+      (r2.1.cursorx = r1.1.cursorx ∧ r2.1.cursory = r1.1.cursory ∧ r2.1.cursorStyle = r1.1.cursorStyle ∧
+        r2.1.cursorColor = r1.1.cursorColor) ∧
+      t2.writes = t1.writes ∧ t2.visible = t1.visible ∧ t2.shape = t1.shape ∧
+      (r1.1.cells.inRange r1.1.cx r1.1.cy → t2.cur = some (r1.1.cx, r1.1.cy)) := by
+    cases hcl : r1.1.clear
+    · rw [hcl] at hr2; simp only [Bool.false_eq_true, if_false] at hr2
+      rw [← hr2] at ht2 ⊢; simp only [applyAll_nil] at ht2; rw [← ht2]
+      exact ⟨inv2, rfl, rfl, rfl, rfl, rfl, hcl, rfl, rfl, rfl, ⟨rfl, rfl, rfl, rfl⟩, rfl, rfl, rfl, hkc1⟩
+    · rw [hcl] at hr2; simp only [if_true] at hr2
+      have e1 : r2.1 = { r1.1 with clear := false } := by rw [← hr2]; rfl
+      have e2 : r2.2 = [Cmd.clear r1.1.style] := by rw [← hr2]; rfl
+      have e3 : t2 = { t1.allGarbage with cur := none, pen := none } := by rw [← ht2, e2]; rfl
+      rw [e1, e3]
+      refine ⟨?_, rfl, rfl, rfl, rfl, rfl, rfl, rfl, rfl, rfl, ⟨rfl, rfl, rfl, rfl⟩, rfl, rfl, rfl, ?_⟩
+      · exact SyncInv.fresh inv2.tw inv2.th inv2.cw inv2.ch inv2.wok inv2.valid (hall1 hcl) (fun _ _ => rfl) inv2.nochaos
+      · intro hr; exfalso
+        cases hh : c.hasHide
+        · obtain ⟨_, k2, k3⟩ := g15.2 hh
+          rw [k2, k3, g7] at hr; simp only [inRange_iff] at hr; omega
+        · obtain ⟨_, k2, k3, _⟩ := g15.1 hh
+          rw [k2, k3, e07, e08, g7] at hr; simp only [inRange_iff] at hr; omega
+  obtain ⟨inv3, f1, f2, f3, f4, f5, f6, f7, f8, f9, f10, f11, f12, f13, f14⟩ := st2
+  -- step 3: the double loop
+  have rp := drawRows_post hrw hct (d := d1) r2.1.h.toNat 0 r2.1 t2 (by omega) inv3
+    (by rw [f1, f8, f9]; exact f14)
+    (by intro h; rw [f5, hcs1] at h; exact absurd rfl h)
+    (by intro d' hd'; rw [f4, g10, e04]; exact dc1 d' hd')
+  generalize hr3 : Scr.drawRows c r2.1.h.toNat 0 r2.1 = r3 at rp
+  generalize ht3 : t2.applyAll r3.2 = t3 at rp
+  -- step 4: restore the cursor
+  have hs := showCursor_apply c r3.1 t3
+  generalize hr4 : r3.1.showCursor c = r4 at hs
+  obtain ⟨k1, k2, k3, k4, k5, k6, k7, k8, k9, k10, k11, k12⟩ := hs
+  have happ : t.applyAll (r1.2 ++ r2.2 ++ r3.2 ++ r4.2) = t3.applyAll r4.2 := by
+    rw [applyAll_append, applyAll_append, applyAll_append, ht1, ht2, ht3]
+  rw [happ]
+  have hcells2 : r2.1.cells = s.cells := by rw [f1, g7, e01]
+  have hw2 : r2.1.w = s.w := by rw [f2, g8, e02]
+  have hh2 : r2.1.h = s.h := by rw [f3, g9, e03]
+  refine { sync := ?_, gc_same := ?_, lock_same := ?_, done := ?_, w_same := ?_, h_same := ?_, style_same := ?_,
+           cursor_same := ?_, clear_done := ?_, fini_same := ?_, cursor := ?_, writes := ?_ }
+  · exact rp.sync.congr k6 k7 k8 k9 k1 k2 k3 k4
+  · intro i j; rw [k6, rp.gc_same, hcells2]
+  · intro i j; rw [k6, rp.lock_same, hcells2]
+  · intro x y hr hv hl
+    rw [k6]
+    have hy : 0 ≤ y ∧ y < s.h := by have := inv.ch; simp only [inRange_iff] at hr; omega
+    apply rp.done y x (by omega) (by rw [hh2]; omega) (by rw [hh2]; exact hy.2)
+    · rw [hcells2, hw2]; simpa [visited, inv.cw] using hv
+    · rw [hcells2]; exact hl
+  · rw [k7, rp.w_same, hw2]
+  · rw [k8, rp.h_same, hh2]
+  · rw [k9, rp.style_same, f4, g10, e04]
+  · obtain ⟨a1, a2, a3, a4⟩ := k12; obtain ⟨b1, b2, b3, b4⟩ := rp.cursor_same; obtain ⟨c1, c2, c3, c4⟩ := f10
+    obtain ⟨d1', d2, d3, d4⟩ := g14
+    exact ⟨by rw [a1, b1, c1, d1', e010], by rw [a2, b2, c2, d2, e011], by rw [a3, b3, c3, d3, e012], by rw [a4, b4, c4, d4, e013]⟩
+  · rw [k10, rp.flags_same.1, f6]
+  · rw [k11, rp.flags_same.2, f7, g13, e06]
+  · -- cursor
+    have hcx : r3.1.cursorx = s.cursorx ∧ r3.1.cursory = s.cursory ∧ r3.1.cursorStyle = s.cursorStyle ∧
+        r3.1.cursorColor = s.cursorColor := by
+      obtain ⟨b1, b2, b3, b4⟩ := rp.cursor_same; obtain ⟨c1, c2, c3, c4⟩ := f10; obtain ⟨d1', d2, d3, d4⟩ := g14
+      exact ⟨by rw [b1, c1, d1', e010], by rw [b2, c2, d2, e011], by rw [b3, c3, d3, e012], by rw [b4, c4, d4, e013]⟩
+    have hc3 : r3.1.cells.w = s.cells.w ∧ r3.1.cells.h = s.cells.h := by
+      rw [rp.sync.cw, rp.sync.ch, rp.w_same, rp.h_same, hw2, hh2, inv.cw, inv.ch]; exact ⟨rfl, rfl⟩
+    have ht3d : t3.w = t.w ∧ t3.h = t.h := by
+      rw [rp.sync.tw, rp.sync.th, rp.w_same, rp.h_same, hw2, hh2, inv.tw, inv.th]; exact ⟨rfl, rfl⟩
+    rw [← hr4]
+    unfold Scr.showCursor
+    simp only [hcx.1, hcx.2.1, hcx.2.2.1, hcx.2.2.2, hc3.1, hc3.2]
+    constructor
+    · intro hr
+      have : ¬ (s.cursorx < 0 ∨ s.cursory < 0 ∨ s.cursorx ≥ s.cells.w ∨ s.cursory ≥ s.cells.h) := by
+        simp only [inRange_iff] at hr; omega
+      rw [if_neg this]
+      simp [ATerm.applyAll, ATerm.apply, ATerm.clampX, ATerm.clampY]
+      have h1 : ¬ s.cursorx < 0 := by omega
+      have h2 : ¬ t3.w ≤ s.cursorx := by rw [ht3d.1, inv.tw, ← inv.cw]; omega
+      have h3 : ¬ s.cursory < 0 := by omega
+      have h4 : ¬ t3.h ≤ s.cursory := by rw [ht3d.2, inv.th, ← inv.ch]; omega
+      simp [h1, h2, h3, h4]
+    · intro hr
+      have : (s.cursorx < 0 ∨ s.cursory < 0 ∨ s.cursorx ≥ s.cells.w ∨ s.cursory ≥ s.cells.h) := by
+        simp only [inRange_iff] at hr; omega
+      rw [if_pos this]
+      have hh := hideCursor_apply c r3.1 t3
+      obtain ⟨_, _, _, _, _, _, _, _, _, _, _, _, _, _, q15⟩ := hh
+      constructor
+      · intro hhide; exact (q15.1 hhide).1
+      · intro hhide
+        rw [(q15.2 hhide).1, hc3.1, hc3.2]
+        simp only [ATerm.clampX, ATerm.clampY, ht3d.1, ht3d.2]
+  · obtain ⟨ws, hws, hm⟩ := rp.writes
+    refine ⟨ws, ?_, ?_⟩
+    · rw [k5, hws, f11, g5]
+    · intro p hp; have := (hm p hp).2; rw [hcells2] at this; exact this
 
 end Tcell
